@@ -21,6 +21,9 @@ BASES = {
 }
 # time x node process grid (controller_MPI over the time communicator, node-parallel sweeper over the node communicator)
 BASE_ST = dict(kind='spacetime', P=2, M=2, QI='MIN', nsteps=3, maxiter=2)
+# one rank in time, three node ranks, two levels, end value by the collocation update: the only set-up in which a level
+# that carries a FAS correction computes its end value on node-parallel sweepers (the multi-step guard forbids P > 1 here)
+BASE_ST1 = dict(kind='spacetime', P=1, M=3, L=2, problem='heat', QI='MIN', nsteps=2, maxiter=2, do_coll_update=True)
 DIMS_ST = {
     'jac': [True, False],
     'P': [2, 3],
@@ -35,6 +38,7 @@ DIMS_ST = {
     'maxiter': [2, 1, 4],
     'nsteps': [3, 2, 5],
     'predict': [None, 'pfasst_burnin'],
+    'do_coll_update': [False, True],
     'quad': [('RADAU-RIGHT',), ('LOBATTO',), ('GAUSS',), ('RADAU-RIGHT', 'LOBATTO'), ('LOBATTO', 'RADAU-RIGHT')],
 }
 
@@ -67,6 +71,7 @@ DIMS_NODES = {
     'maxiter': [3, 1, 6],
     'nsteps': [2, 1, 3],
     'finter': [False, True],
+    'do_coll_update': [False, True],
     'quad': [('RADAU-RIGHT',), ('LOBATTO',), ('GAUSS',), ('RADAU-RIGHT', 'LOBATTO'), ('LOBATTO', 'RADAU-RIGHT')],
     'node_type': [('LEGENDRE',), ('LEGENDRE', 'EQUID')],
 }
@@ -231,7 +236,7 @@ def run(rep, tier):
         plan.append(('2 x 2 space-time grid (Jacobi and Gauss-Seidel coupling), every schedule with <= 1 deviation', st, 1))
     else:
         plan.append(('2 x 2 space-time grid (Jacobi and Gauss-Seidel coupling), every schedule with <= 1 deviation', [dict(mh.default_cfg(**dict(BASE_ST, jac=j)), **MODES[0]) for j in (True, False)], 1))
-    st_ball = [dict(c, **m) for c in ball(BASE_ST, DIMS_ST, 1 if tier == 'quick' else 2) for m in (MODES[:2] if tier == 'quick' else MODES)]
+    st_ball = [dict(c, **m) for c in ball(BASE_ST, DIMS_ST, 1 if tier == 'quick' else 2) + ball(BASE_ST1, {k: v for k, v in DIMS_ST.items() if k != 'P'}, 1) for m in (MODES[:2] if tier == 'quick' else MODES)]
     plan.append(('space-time grid configuration ball, canonical schedule', st_ball, 0))
     bounds = []
     for label, vs, bound in plan:
